@@ -299,6 +299,73 @@ theorem take_await_eq_blocking (oc : Bool) (r : Reader σ) :
       | nil =>
         exact take_ready_case oc r fuel t tb rb hst hrem h0 h0' (by intro rest' h; rw [hpend] at h; cases h)
 
+/-! ### the hypotheses of the poll-level theorems are met by whole classes of streams -/
+
+/-- every contract-honouring blocking reader, with any Pending schedule, is a contract-honouring async stream -/
+theorem liftA_ok (r : Reader σ) (hr : ReaderOK r) : AReaderOK (liftA r) := by
+  intro s rb hrb
+  have hlen : (rb.buf.take rb.filled).length = rb.filled := by simp; omega
+  cases hp : s.pend with
+  | cons a rest =>
+    cases a with
+    | true => rw [liftA_pending r s rb rest hp]; simp [hrb]
+    | false =>
+      rw [liftA_ready r s rb (by intro rest' h; rw [hp] at h; cases h)]
+      obtain ⟨h1, h2⟩ := hr s.st (rb.buf.drop rb.filled)
+      rcases hrd : r s.st (rb.buf.drop rb.filled) with ⟨st', res, d'⟩
+      rw [hrd] at h1 h2
+      simp only at h1 h2
+      cases res with
+      | ok n =>
+        have hn := h2 n rfl
+        simp only [List.length_drop] at hn h1
+        refine ⟨by simp [h1]; omega, by simp, by simp [h1]; omega, ?_, by simp⟩
+        simp only
+        rw [List.take_append_of_le_length (by omega)]; simp [List.take_take]
+      | error e =>
+        simp only [List.length_drop] at h1
+        refine ⟨by simp [h1]; omega, by simp, by simp [h1]; omega, ?_, by simp⟩
+        simp only
+        rw [List.take_append_of_le_length (by omega)]; simp [List.take_take]
+  | nil =>
+    rw [liftA_ready r s rb (by intro rest' h; rw [hp] at h; cases h)]
+    obtain ⟨h1, h2⟩ := hr s.st (rb.buf.drop rb.filled)
+    rcases hrd : r s.st (rb.buf.drop rb.filled) with ⟨st', res, d'⟩
+    rw [hrd] at h1 h2
+    simp only at h1 h2
+    cases res with
+    | ok n =>
+      have hn := h2 n rfl
+      simp only [List.length_drop] at hn h1
+      refine ⟨by simp [h1]; omega, by simp, by simp [h1]; omega, ?_, by simp⟩
+      simp only
+      rw [List.take_append_of_le_length (by omega)]; simp [List.take_take]
+    | error e =>
+      simp only [List.length_drop] at h1
+      refine ⟨by simp [h1]; omega, by simp, by simp [h1]; omega, ?_, by simp⟩
+      simp only
+      rw [List.take_append_of_le_length (by omega)]; simp [List.take_take]
+
+/-- the scripted async read-writer the correspondence check drives the adapters with honours the contract -/
+theorem asrwReader_ok : AReaderOK asrwReader := by
+  intro s rb hrb
+  have hlen : (rb.buf.take rb.filled).length = rb.filled := by simp; omega
+  simp only [asrwReader, ASRW.pollRead]
+  cases hr : s.racts with
+  | nil =>
+    simp only [ReadBuf.remaining]
+    refine ⟨by simp; omega, by simp, by simp; omega, ?_, by simp⟩
+    rw [List.append_assoc, List.take_append_of_le_length (by omega)]; simp [List.take_take]
+  | cons a rest =>
+    cases a with
+    | pending => simp [hrb]
+    | eof => simp [hrb]
+    | err k => simp [hrb]
+    | data k scr =>
+      simp only [ReadBuf.remaining]
+      refine ⟨by cases scr <;> simp <;> omega, by simp, by simp; omega, ?_, by simp⟩
+      rw [List.append_assoc, List.take_append_of_le_length (by omega)]; simp [List.take_take]
+
 /-! ### non-vacuity: concrete runs -/
 
 /-- a blocking reader over a list of bytes -/
